@@ -1076,7 +1076,10 @@ class Judge:
             if not res:
                 self.flag("Definition:missing:%s" % st.get("pc"), "%s: no definition although the position is inside the "
                           "name %r declared at %r" % (where, u["w"], ti.cp_to_pos(d["na"])), sess, rec)
-            elif not res.get("uri", "").endswith("doc%d.llw" % st["doc"]) or cpr(res["range"]) != (d["a"], d["b"]):
+            elif not res.get("uri", "").endswith("doc%d.llw" % st["doc"]) or not (
+                    d["a"] <= cpr(res["range"])[0] <= d["na"] and d["nb"] <= cpr(res["range"])[1] <= d["b"]):
+                # any range inside the declaration that covers the declared name is "the declaration"
+                # (the pinned tree returns the whole declaration; only the name would be just as right)
                 self.flag("Definition:wrong_target", "%s: definition of %r is %r (%r), its declaration is %r"
                           % (where, u["w"], ti.range_text(res["range"]), res["range"], ti.text[d["a"]:d["b"]]), sess, rec)
         if op == "references":
